@@ -448,6 +448,7 @@ def opaque_binop(ex, op, a, b, node):
 
 
 def call_value_method(ex, o, name, args, kwargs, node):
+    S = ex.S
     if isinstance(o, Seq):
         if name == "append":
             ex.seq_append(o, args[0], node)
@@ -490,14 +491,28 @@ def call_value_method(ex, o, name, args, kwargs, node):
             return None
         if name == "copy":
             return o.copy()
+    if isinstance(o, ObjSeq) and name == "extend":
+        items = ex.concrete_items(args[0], node)
+        for it in items:
+            call_value_method(ex, o, "append", [it], {}, node)
+        return None
     if isinstance(o, ObjSeq) and name == "append":
         x = args[0]
-        if not isinstance(x, Obj) or set(o.fields) - set(x.fields):
-            raise OutOfSubset("append of %r to an object list with fields %s" % (x, sorted(o.fields)), node)
+        if not isinstance(x, Obj):
+            raise OutOfSubset("append of %r to an object list" % (x,), node)
         n = V.to_z3(o.length)
         for f in o.fields:
+            if isinstance(o.fields[f], (list, tuple)):
+                sub = x.fields.get(f)
+                if not (isinstance(sub, Seq) and sub.concrete and len(sub.items) == len(o.fields[f])):
+                    raise OutOfSubset("append: list-valued field %s does not match" % f, node)
+                o.fields[f] = [z3.Store(a, n, V.to_z3(V.bool_to_int(v), a.sort().range() == z3.RealSort())) for a, v in zip(o.fields[f], sub.items)]
+                continue
             rs = o.fields[f].sort().range()
-            val = x.fields[f]
+            val = x.fields.get(f)
+            if val is None:
+                # field absent or None on the new object (e.g. benefit of a freshly created interval): an arbitrary value of the field's sort
+                val = S.const("new.%s" % f, rs)
             if isinstance(val, Seq):
                 val = val.to_symbolic().arr
             o.fields[f] = z3.Store(o.fields[f], n, val if is_z3(val) and val.sort() == rs else V.to_z3(V.bool_to_int(val), rs == z3.RealSort()))
